@@ -27,6 +27,8 @@ def run(R):
     R.trusted = ["CPython ast", "exact rational polynomial arithmetic (engine/poly.py, engine/vn.py)",
                  "numpy object-array broadcasting", "identity sin^2+cos^2=1 and field axioms only"]
     R.assume("real arithmetic: equality is of real-valued functions where ystep != 0; floating-point rounding is not modelled")
+    if R.want("C19.R6"):
+        r6(R)
     if R.want("C19.P1"):
         p1(R)
     if R.want("C19.R2"):
@@ -37,6 +39,37 @@ def run(R):
         r4(R)
     if R.want("C19.R5"):
         r5(R)
+
+
+def r6(R):
+    """P1 treats every conversion as a function of its arguments.  That is only the function the user calls if no conversion reads
+    module-level state that the module itself changes between calls (a memo of the last sin/cos, a running offset ...)."""
+    R.rule("C19.R6", "geometry.py: no conversion function (or a helper it calls) reads module-level state that a function of the module "
+                     "modifies - the value returned depends on the arguments only, not on earlier calls")
+    m = pyfacts.module(R, GEO)
+    n = 0
+    for q, fn in sorted(m.funcs.items()):
+        if "." in q or getattr(fn, "_parent", None) is not m.tree:
+            continue
+        n += 1
+        reads = pyfacts.state_reads(m, fn)
+        R.inst("C19.R6", "%s:%s reads no mutable module state" % (GEO, q), ok=not reads)
+        for name, node, owner in reads[:1]:
+            muts = pyfacts.module_state(m)[name]
+            # positive evidence: the state is a memo validated by object identity (x is / is not <state>), or it is read with no
+            # validity test at all; a memo validated by comparing values may be a correct one: not decided
+            tests = [c for c in ast.walk(owner) if isinstance(c, ast.Compare) and any(isinstance(x, ast.Name) and x.id == name for x in ast.walk(c))]
+            ident = [c for c in tests if any(isinstance(o, (ast.Is, ast.IsNot)) for o in c.ops)
+                     and not any(isinstance(x, ast.Constant) and x.value is None for x in [c.left] + c.comparators)]
+            ident += [c for c in tests if any(isinstance(x, ast.Call) and src(x.func) == "id" for x in ast.walk(c))]
+            if tests and not ident:
+                R.shape(False, "C19.R6", GEO, q, "whether the module-level memo %s (tested by '%s') is valid for every argument" % (name, src(tests[0])[:60]))
+            R.violation("C19.R6", GEO, node.lineno, q, "%s read in %s; modified at line %s (%s)%s" % (
+                name, owner.name, muts[0].lineno, src(pyfacts.containing_stmt(muts[0]))[:70], ("; validated by identity: " + src(ident[0])) if ident else ""),
+                        "the result of %s depends on module-level state that the module changes between calls (here: %s, %s), so it is not a "
+                        "function of its arguments: equal arguments can give different values after an earlier call, and an array changed in place "
+                        "after it was seen is still the same object" % (q, name, "reused when an argument is the same object as last time" if ident else "read without any validity test"))
+    R.floor("C19.R6", 15)
 
 
 PAIRS = [
